@@ -98,9 +98,13 @@ def run_case(spec):
         if got_q != want_q:
             r.fail("C14/query", "sent %r recovered %r (query string %r)" % (want_q, got_q, env["QUERY_STRING"][:120]))
     if not r.failures:
+        cgi = [x.replace("-", "_").upper() for x, _v in hdrs]
         for n, v in hdrs:
             gv = got["headers"].get(n.lower())
-            ev = env.get("HTTP_" + n.replace("-", "_").upper())
+            key = n.replace("-", "_").upper()
+            # two header names that differ only in '-' / '_' share one CGI environ key (inherent in WSGI): the
+            # environ side is then not judged for them, the parser side still is
+            ev = env.get("HTTP_" + key) if cgi.count(key) == 1 else v
             if gv != v or ev != v:
                 r.fail("C14/header", "header %r sent %r recovered %r / environ %r" % (n, v, gv, ev))
                 break
